@@ -1,1 +1,24 @@
-// verification harness include for oneshot_broadcast (see /verif/DESIGN.md)
+// Included at the end of /repo/src/channel/oneshot_broadcast.rs under cfg(futures_intrusive_verif).
+pub(crate) mod verif_oneshot_bc {
+    use super::*;
+    use crate::verif::common::*;
+    use core::future::Future;
+    use core::mem::ManuallyDrop;
+    use core::pin::Pin;
+    use futures_core::future::FusedFuture;
+
+    type Chan<M> = GenericOneshotBroadcastChannel<M, Tag>;
+    const BROADCAST: bool = true;
+
+    include!(concat!(env!("FI_VERIF_INC"), "/oneshot_common.rs"));
+
+    #[no_mangle]
+    pub fn fi_verif_replay_oneshot_bc(name: &str, cfg: u32, p: u32, s: &mut ScriptSrc<'_>) -> bool {
+        match name {
+            "oneshot_bc_hist_noop" => { hist::<NoopLock, _>(s, cfg, 64, p); }
+            "oneshot_bc_hist_check" => { hist::<CheckLock, _>(s, cfg, 64, p); }
+            _ => return false,
+        }
+        true
+    }
+}
